@@ -438,7 +438,17 @@ def _u16(v):
 
 
 K1, K2, IV1, IV2 = _h(128, 32), _h(160, 32), _h(192, 16), _h(208, 16)
-KAT = [  # appendix vectors of STB 34.101.31 as used in test/crypto/belt_test.c (op -> expected output)
+def _rot_tab(r):
+    out = b""
+    for h in H:
+        v = ((h << r) | (h >> (32 - r))) & 0xFFFFFFFF
+        out += v.to_bytes(4, "little")
+    return out.hex()
+
+
+KAT = [  # the substitution H of the standard and its rotated word tables; then appendix vectors
+    ("tab H", H.hex()), ("tab H5", _rot_tab(5)), ("tab H13", _rot_tab(13)), ("tab H21", _rot_tab(21)), ("tab H29", _rot_tab(29)),
+    # appendix vectors of STB 34.101.31 as used in test/crypto/belt_test.c (op -> expected output)
     ("blk E %s %s" % (K1, _h(0, 16)), "69cca1c93557c9e3d66bc3e0fa88fa6e"),
     ("blk D %s %s" % (K2, _h(64, 16)), "0dc5300600cab840b38448e5e993f421"),
     ("wbl E %s 0 %s" % (K1, _h(0, 48)), "49a38ee108d6c742e52b774f00a6ef98b106cbd13ea4fb0680323051bc04df76e487b055c69bcf541176169f1dc9f6c8 6"),
